@@ -291,11 +291,20 @@ static inline SizeOp element_type_to_size_op(uint32_t vec_op_type, RegType reg_t
   const SizeOpMap& map = size_op_map[vec_op_type];
   const SizeOpTable& table = size_op_table[map.table_id];
 
-  size_t index = (Support::min<uint32_t>(diff(reg_type, RegType::kVec8), diff(RegType::kVec128, RegType::kVec8) + 1) << 3) | uint32_t(element_type);
+  // The table only describes vector registers (Vec8..Vec128), anything else (for example a general purpose register
+  // passed where a vector register is expected) would index past its end.
+  uint32_t reg_index = diff(reg_type, RegType::kVec8);
+  if (reg_index > diff(RegType::kVec128, RegType::kVec8)) {
+    return SizeOp { SizeOp::kInvalid };
+  }
+
+  size_t index = (reg_index << 3) | uint32_t(element_type);
   SizeOp op = table.array[index];
   SizeOp modified_op { uint8_t(op.value & map.size_op_mask) };
 
-  if (!Support::bit_test(map.accept_mask, op.value)) {
+  // The table holds `SizeOp::kInvalid` for combinations that don't exist - that value cannot be tested against
+  // `accept_mask` as it's not a bit index.
+  if (!op.is_valid() || !Support::bit_test(map.accept_mask, op.value)) {
     modified_op.make_invalid();
   }
 
